@@ -242,12 +242,6 @@ Definition in_scope (e : entry) : bool :=
   | _ => true
   end.
 
-Definition entry_ok (e : entry) : bool :=
-  match classify e with
-  | Some t => closure_beq (closure_of e) (closure_of_tmpl t)
-  | None => false
-  end.
-Definition row_ok (e : entry) : bool := if in_scope e then entry_ok e else true.
 
 (* ------------------------------------------------------------------ specification *)
 Definition tmpl_valid (t : tmpl) : bool :=
@@ -260,12 +254,20 @@ Definition tmpl_valid (t : tmpl) : bool :=
   | TUn Compl k => is_integer k
   | TUn LNot k => match k with GBool => true | _ => false end
   | TUn Plus _ => false
-  | TMulPow2 k negy lit => is_integer k && (negb negy || is_signed k) && match lit with Some z => 0 <=? z | None => true end
+  | TMulPow2 k negy lit => is_integer k && (negb negy || is_signed k) && match lit with Some z => negb negy && (0 <=? z) | None => true end
   | TQuoPow2 k negy => is_integer k && (negb negy || is_signed k)
   | TRemPow2 k => is_integer k
   | TAsU64 k => is_integer k
   | TAsU64Const => true
   end.
+
+(* the checker run on every regenerated row *)
+Definition entry_ok (e : entry) : bool :=
+  match classify e with
+  | Some t => tmpl_valid t && closure_beq (closure_of e) (closure_of_tmpl t)
+  | None => false
+  end.
+Definition row_ok (e : entry) : bool := if in_scope e then entry_ok e else true.
 
 Section Spec.
   Variable F : Type.
@@ -368,3 +370,213 @@ Section Spec.
              | OutOfFuel => OutOfFuel
              end.
 End Spec.
+
+(* ------------------------------------------------------------------ correspondence run (integers, bools, strings) *)
+(* floats never occur in these cases, so the abstract float carrier is instantiated with unit *)
+Definition uval := value unit.
+Definition ubin (_ : gokind) (_ : binop) (_ _ : unit) := tt.
+Definition ucmp (_ : gokind) (_ : binop) (_ _ : unit) := false.
+Definition uun (_ : gokind) (_ : unop) (_ : unit) := tt.
+Definition uconv (_ _ : gokind) (_ : unit) := tt.
+Definition upart (_ : gokind) (_ : bool) (_ : unit) := tt.
+Definition ubits (_ : gokind) (_ _ : Z) := tt.
+
+Inductive obs := ObsVal (v : uval) | ObsPanic (p : panic) | ObsCompileError.
+Record case := mkCase { c_idx : Z; c_fn : fname; c_shape : cshape; c_kind : gokind; c_a : uval; c_b : uval; c_obs : obs }.
+
+Definition uval_eqb (a b : uval) : bool :=
+  match a, b with
+  | VBool x, VBool y => Bool.eqb x y
+  | VInt k x, VInt k' y => gokind_beq k k' && (x =? y)
+  | VStr x, VStr y => str_eqb x y
+  | _, _ => false
+  end.
+Definition panic_eqb (a b : panic) : bool :=
+  match a, b with
+  | PDiv0, PDiv0 | PNegShift, PNegShift | PIndex, PIndex | PNil, PNil | POther, POther => true
+  | _, _ => false
+  end.
+Definition obs_matches (r : res uval) (o : obs) : bool :=
+  match r, o with
+  | Ok v, ObsVal w => uval_eqb v w
+  | Panic p, ObsPanic q => panic_eqb p q
+  | _, _ => false
+  end.
+
+Definition unop_of_fn (f : fname) : option unop :=
+  match f with
+  | FN_UnaryMinus => Some Neg | FN_UnaryXor => Some Compl | FN_UnaryNot => Some LNot | FN_UnaryPlus => Some Plus
+  | _ => None
+  end.
+Definition shiftop_of_fn (f : fname) : option binop :=
+  match f with FN_Shl => Some Shl | FN_Shr => Some Shr | _ => None end.
+
+(* what Go does for the case (the specification side of the correspondence) *)
+Definition case_spec (c : case) : res uval :=
+  match binop_of_fn (c_fn c), shiftop_of_fn (c_fn c), unop_of_fn (c_fn c) with
+  | Some (op, _), _, _ => go_binop unit ubin ucmp (c_kind c) op (c_a c) (c_b c)
+  | _, Some op, _ => go_shift unit (c_kind c) op (c_a c) (c_b c)
+  | _, _, Some op => go_unop unit uun op (c_a c)
+  | _, _, _ => Stuck
+  end.
+(* constant expressions Go rejects: integer division by a constant zero, negative constant shift count *)
+Definition case_compile_error (c : case) : bool :=
+  match c_shape c, c_b c with
+  | ShVC, VInt kb n =>
+      match binop_of_fn (c_fn c), shiftop_of_fn (c_fn c) with
+      | Some (Quo, _), _ | Some (Rem, _), _ => is_integer (c_kind c) && (n =? 0)
+      | _, Some _ => n <? 0
+      | _, _ => false
+      end
+  | _, _ => false
+  end.
+
+Definition const_fun (v : uval) : opfun unit := fun _ s => Ok (v, s).
+Definition urun := run unit ubin ucmp uun uconv upart ubits.
+Definition find_tmpl (tables : list entry) (t : tmpl) : option entry :=
+  find (fun e => match classify e with
+                 | Some t' => closure_beq (closure_of_tmpl t) (closure_of_tmpl t') && in_scope e
+                 | None => false end) tables.
+Definition run_tmpl (tables : list entry) (t : tmpl) (i : inputs unit) : res uval :=
+  match find_tmpl tables t with
+  | Some e => match urun (roots_of unit t i) (closure_of e) 0%nat [] with
+              | Ok (v, _) => Ok v | Panic p => Panic p | Stuck => Stuck | OutOfFuel => OutOfFuel end
+  | None => Stuck
+  end.
+
+(* exponent of a power of two >= 2 *)
+Definition pow2_exp (y : Z) : option Z :=
+  if y <=? 1 then None else let l := Z.log2 y in if 2 ^ l =? y then Some l else None.
+
+(* the shift count as the closure receives it: through the Expr.AsUint64 row of the count's kind *)
+Definition count_through_asU64 (tables : list entry) (b : uval) : res uval :=
+  match b with
+  | VInt GUint64 n => Ok b
+  | VInt kc n => run_tmpl tables (TAsU64 kc) (mkInputs unit (const_fun b) (const_fun b) b 0)
+  | _ => Stuck
+  end.
+
+(* the regenerated rows that gomacro may use for the case, each evaluated on the case's operands *)
+Definition case_rows (tables : list entry) (c : case) : list (res uval) :=
+  let k := c_kind c in let a := c_a c in let b := c_b c in
+  let inp := mkInputs unit (const_fun a) (const_fun b) (match c_shape c with ShCV => a | _ => b end) 0 in
+  match binop_of_fn (c_fn c), shiftop_of_fn (c_fn c), unop_of_fn (c_fn c) with
+  | Some (op, sb), _, _ =>
+      (* no row for this (operator, kind): gomacro uses its reflect-based fallback (bool != bool), tied by the
+         harness' direct oracle only *)
+      let generic := match find_tmpl tables (TBin op (c_shape c) sb k) with
+                     | Some _ => [run_tmpl tables (TBin op (c_shape c) sb k) inp]
+                     | None => [] end in
+      let cst := match c_shape c with ShVC => Some b | ShCV => Some a | _ => None end in
+      let pow2 :=
+        match cst, op with
+        | Some (VInt _ y), Quo | Some (VInt _ y), Rem | Some (VInt _ y), Mul =>
+            if is_integer k && negb (match op, c_shape c with Quo, ShCV | Rem, ShCV => true | _, _ => false end) then
+              match pow2_exp (Z.abs y) with
+              | Some sh =>
+                  let i2 := mkInputs unit (const_fun (match c_shape c with ShCV => b | _ => a end)) (const_fun b) b sh in
+                  match op with
+                  | Quo => [run_tmpl tables (TQuoPow2 k (y <? 0)) i2]
+                  | Rem => [run_tmpl tables (TRemPow2 k) i2]
+                  | _ => [run_tmpl tables (TMulPow2 k (y <? 0) None) i2]
+                  end
+              | None => []
+              end
+            else []
+        | _, _ => []
+        end in
+      generic ++ pow2
+  | _, Some op, _ =>
+      match c_shape c with
+      | ShVC => [run_tmpl tables (TShift op ShVC k) inp]
+      | sh => match count_through_asU64 tables b with
+              | Ok n => [run_tmpl tables (TShift op sh k) (mkInputs unit (const_fun a) (const_fun n) a 0)]
+              | r => [r]
+              end
+      end
+  | _, _, Some Plus => [Ok a]
+  | _, _, Some op => [run_tmpl tables (TUn op k) inp]
+  | _, _, _ => [Stuck]
+  end.
+
+(* a case agrees when the specification AND every applicable regenerated row reproduce the observation *)
+Definition case_ok (tables : list entry) (c : case) : bool :=
+  if case_compile_error c then match c_obs c with ObsCompileError => true | _ => false end
+  else obs_matches (case_spec c) (c_obs c) && forallb (fun r => obs_matches r (c_obs c)) (case_rows tables c).
+Definition mismatches (tables : list entry) (cs : list case) : list Z :=
+  map c_idx (filter (fun c => negb (case_ok tables c)) cs).
+
+(* ------------------------------------------------------------------ variable reads (fast/identifier.go) *)
+(* The read closure of a variable is determined by (storage class, number of frames up, kind): every kind must read
+   slot idx of the SAME frame as its sibling kinds, through the accessor of ITS kind.  This checker pins every row
+   of identifier.go to that uniform template (one kind differing from its siblings -- the defect fixed in
+   identifier.go:964 -- is a checker failure).  The semantic statement (the value read is the slot content) is tied
+   by the harness over all placements, not by a theorem. *)
+Inductive hops := HHere | HOuter1 | HOuter2 | HFile | HFileOuter | HUp.
+
+Definition hops_expr (h : hops) : expr :=
+  let env := EVar V_env in
+  match h with
+  | HHere | HUp => env
+  | HOuter1 => ESel env F_Outer
+  | HOuter2 => ESel (ESel env F_Outer) F_Outer
+  | HFile => ESel env F_FileEnv
+  | HFileOuter => ESel (ESel env F_FileEnv) F_Outer
+  end.
+Definition idx_let (owner : ident) := (V_idx, ECall0 (EMeth (ESel (EVar owner) F_Desc) M_Index)).
+Definition upn_let := (V_upn, ESel (EVar V_sym) F_Upn).
+Definition up_stmt := SAssign (EVar V_env) (ECall1 (EMeth (EVar V_env) M_Up) (EVar V_upn)).
+
+Definition read_expr (intbind : bool) (h : hops) (k : gokind) : expr :=
+  if intbind then
+    let slot := EIndex (ESel (hops_expr h) F_Ints) (EVar V_idx) in
+    match k with
+    | GUint64 => slot
+    | _ => EDeref (EConv (TPtr k) (EConv TUnsafePtr (EAddr slot)))
+    end
+  else cextract k (EIndex (ESel (hops_expr h) F_Vals) (EVar V_idx)).
+
+Definition varread_closure (intbind : bool) (owner : ident) (h : hops) (k : gokind) : closure :=
+  let body := SReturn (read_expr intbind h k) in
+  match h with
+  | HUp => mkClosure (if intbind then [upn_let; idx_let owner] else [idx_let owner; upn_let]) envp [TK k] (SSeq up_stmt body)
+  | _ => mkClosure [idx_let owner] envp [TK k] body
+  end.
+
+Definition hops_of_case (c : pcond) : option hops :=
+  match c with
+  | PCase (EVar V_upn) [ELit 1] => Some HOuter1
+  | PCase (EVar V_upn) [ELit 2] => Some HOuter2
+  | PCase (EVar V_upn) [EBin Sub (EVar V_depth) (ELit 1)] => Some HFile
+  | PCase (EVar V_upn) [EVar V_depth] => Some HFileOuter
+  | PDefault (EVar V_upn) _ => Some HUp
+  | _ => None
+  end.
+Definition intbind_kind (k : gokind) : bool := match k with GString => false | _ => true end.
+
+Definition is_varread_fn (f : fname) : bool :=
+  match f with FN_Bind_expr | FN_Symbol_expr | FN_Bind_intExpr | FN_Symbol_intExpr => true | _ => false end.
+(* rows for the basic kinds (the default clause of the kind switch returns the reflect.Value itself) *)
+Definition varread_in_scope (e : entry) : bool :=
+  is_varread_fn (e_func e) && match rev (e_path e) with PCase _ [EKindLit _] :: _ => true | _ => false end.
+
+Definition varread_expected (e : entry) : option closure :=
+  match e_func e, e_path e with
+  | FN_Bind_expr, [PCase (ECall0 (EMeth (ESel (EVar V_bind) F_Type) M_Kind)) [EKindLit k]] =>
+      Some (varread_closure false V_bind HHere k)
+  | FN_Bind_intExpr, [PCase (ECall0 (EMeth (ESel (EVar V_bind) F_Type) M_Kind)) [EKindLit k]] =>
+      if intbind_kind k then Some (varread_closure true V_bind HHere k) else None
+  | FN_Symbol_expr, [c; PCase (EVar V_kind) [EKindLit k]] =>
+      match hops_of_case c with Some h => Some (varread_closure false V_sym h k) | None => None end
+  | FN_Symbol_intExpr, [c; PCase (EVar V_k) [EKindLit k]] =>
+      match hops_of_case c with
+      | Some HFileOuter => None
+      | Some h => if intbind_kind k then Some (varread_closure true V_sym h k) else None
+      | None => None
+      end
+  | _, _ => None
+  end.
+Definition varread_ok (e : entry) : bool :=
+  if varread_in_scope e then
+    match varread_expected e with Some c => closure_beq (closure_of e) c | None => false end
+  else true.
